@@ -16,7 +16,12 @@ def cases(tier, rng, dist):
 
 
 def oracle(c, o):
-    r = CR.oracle(c, o)
+    from .. import common
+    common.ALLOW[0] = list(ALLOWED)      # violations of other classes do not end the oracle early (common.emit)
+    try:
+        r = CR.oracle(c, o)
+    finally:
+        common.ALLOW[0] = None
     if r is None:
         return None
     suffix = r["cls"].split(":", 1)[1] if ":" in r["cls"] else r["cls"]
